@@ -16,7 +16,7 @@ Spec == Init /\ [][Next]_i
 
 T == Corpus[i].tree
 B == Enc(T)
-InvRoundTrip == ~IsDesc(T) => LET p == Parse(B, ArityTable(Corpus[i].arities)) IN p.ok /\ p.t = Norm(T) /\ p.n = Len(B)
+InvRoundTrip == (~IsDesc(T) /\ ~("b" \in DOMAIN Corpus[i])) => LET p == Parse(B, ArityTable(Corpus[i].arities)) IN p.ok /\ p.t = Norm(T) /\ p.n = Len(B)
 FramedOp == [Package |-> 1, PackageBuilder |-> 1, VarPackage |-> 1, BufferData |-> 1, BufferFill |-> 1, BufferTerm |-> 1, Uuid |-> 1,
              ResourceTemplate |-> 1, Device |-> 2, Scope |-> 1, ScopeRaw |-> 1, Method |-> 1, PowerResource |-> 2, Field |-> 2,
              If |-> 1, Else |-> 1, While |-> 1]
